@@ -29,6 +29,12 @@ type Entry struct {
 	Tag    string   `json:"tag"`
 	Status int      `json:"status"`
 	Fail   string   `json:"fail"` // "" | reset | timeout | short_body
+	// NoPath: the request URI has no path at all (url.URL.Path == ""), so there is nothing to derive an auto-tag from:
+	//   abs        http://e<i>.c10.example       (uri / raw: absolute URI; http/json: host + empty uri)
+	//   abs_query  http://e<i>.c10.example?k=v
+	//   query      ?e<i>=1                       (uri and http/json; raw request lines cannot be written that way: abs_query)
+	// The entry is then recognised by the Host header or the query instead of the first path element.
+	NoPath string `json:"no_path,omitempty"`
 }
 
 type HTTPCase struct {
@@ -72,16 +78,71 @@ func genHTTP(t *rapid.T) HTTPCase {
 				e.Status = 200 // these statuses carry no body, so there is no body to cut short
 			}
 		}
+		if rapid.IntRange(0, 3).Draw(t, "noPath") == 0 {
+			e.NoPath = rapid.SampledFrom([]string{"abs", "abs_query", "query"}).Draw(t, "noPathKind")
+			e.Path, e.Slash = nil, false
+		}
 		c.Entries = append(c.Entries, e)
 	}
 	c.AutoTag = rapid.Bool().Draw(t, "autoTag")
 	c.Elements = rapid.IntRange(1, 3).Draw(t, "elements")
 	c.NoTagOnly = rapid.Bool().Draw(t, "noTagOnly")
+	if c.AutoTag && !c.NoTagOnly {
+		// what "ammo tag + an auto-tag of nothing" should read like is not documented: path-less entries carry no tag then
+		for i := range c.Entries {
+			if c.Entries[i].NoPath != "" {
+				c.Entries[i].Tag = ""
+			}
+		}
+	}
 	c.Instances = rapid.IntRange(1, 8).Draw(t, "instances")
 	c.Passes = rapid.IntRange(1, 2).Draw(t, "passes")
 	c.Refused = rapid.IntRange(0, 9).Draw(t, "refused") == 0
 	c.Format = rapid.SampledFrom([]string{"uri", "jsonline", "raw"}).Draw(t, "format")
 	return c
+}
+
+func entryHost(i int) string { return fmt.Sprintf("e%d.c10.example", i) }
+
+// ammoURI is what the ammo file says; host is the entry's own Host ("" = none: the gun fills in the target's).
+func (e Entry) ammoURI(i int, format string) (uri, host string) {
+	kind := e.NoPath
+	if kind == "query" && format == "raw" {
+		kind = "abs_query"
+	}
+	switch kind {
+	case "":
+		return e.uri(i), ""
+	case "query":
+		return fmt.Sprintf("?e%d=1", i), ""
+	}
+	q := ""
+	if kind == "abs_query" {
+		q = "?k=v"
+	}
+	if format == "jsonline" {
+		return q, entryHost(i) // the http/json provider builds "http://" + host + uri
+	}
+	return "http://" + entryHost(i) + q, ""
+}
+
+// entryOf recognises the entry a request belongs to: Host e<i>.c10.example, else the first path element /e<i>, else the query ?e<i>=1.
+func entryOf(host, requestURI string) (int, bool) {
+	if h, ok := strings.CutSuffix(host, ".c10.example"); ok {
+		i, err := strconv.Atoi(strings.TrimPrefix(h, "e"))
+		return i, err == nil
+	}
+	p, ok := strings.CutPrefix(requestURI, "/e")
+	if !ok {
+		if p, ok = strings.CutPrefix(requestURI, "/?e"); !ok {
+			return 0, false
+		}
+	}
+	if k := strings.IndexAny(p, "/?=&"); k >= 0 {
+		p = p[:k]
+	}
+	i, err := strconv.Atoi(p)
+	return i, err == nil
 }
 
 func (e Entry) uri(i int) string {
@@ -106,8 +167,11 @@ func autoTag(path string, n int) string {
 func (c HTTPCase) wantTag(i int) string {
 	e := c.Entries[i]
 	tag := e.Tag
-	if c.AutoTag && (!c.NoTagOnly || tag == "") {
+	if c.AutoTag && (!c.NoTagOnly || tag == "") && (e.NoPath == "" || tag == "") {
 		a := autoTag(e.uri(i), c.Elements)
+		if e.NoPath != "" {
+			a = "" // no path elements: no auto-tag, "__EMPTY__ when there is none"
+		}
 		if tag == "" {
 			tag = a
 		} else {
@@ -173,13 +237,8 @@ func checkHTTP(c HTTPCase, o *vf.Obs) error {
 	mu.Lock()
 	defer mu.Unlock()
 	tg.Reset(func(seq int, r *target.Rec) target.Resp {
-		// entry index is the first path element "e<i>"
-		p := strings.TrimPrefix(r.RequestURI, "/e")
-		if k := strings.IndexAny(p, "/?"); k >= 0 {
-			p = p[:k]
-		}
-		i, err := strconv.Atoi(p)
-		if err != nil || i >= len(c.Entries) {
+		i, ok := entryOf(r.Host, r.RequestURI)
+		if !ok || i < 0 || i >= len(c.Entries) {
 			return target.Resp{Status: 599}
 		}
 		e := c.Entries[i]
@@ -201,9 +260,10 @@ func checkHTTP(c HTTPCase, o *vf.Obs) error {
 	})
 	f := ag.File{Format: c.Format}
 	for i, e := range c.Entries {
-		en := ag.Entry{Method: "GET", URI: e.uri(i), Tag: e.Tag}
+		en := ag.Entry{Method: "GET", Tag: e.Tag}
+		en.URI, en.Host = e.ammoURI(i, c.Format)
 		if c.Format == "raw" {
-			en.Host = "h.example.com"
+			en.Host = "h.example.com" // superseded by the host of an absolute request URI
 		}
 		f.Items = append(f.Items, ag.Item{Entry: &en})
 	}
@@ -278,9 +338,13 @@ func checkHTTP(c HTTPCase, o *vf.Obs) error {
 		}
 	}
 	got := map[key]int{}
+	gotNet := map[key][]string{}
 	ids := map[uint64]bool{}
 	for _, l := range lines {
 		got[key{l.tag, l.proto, l.net == 0}]++
+		if l.net != 0 {
+			gotNet[key{l.tag, l.proto, false}] = append(gotNet[key{l.tag, l.proto, false}], fmt.Sprintf("net=%d", l.net))
+		}
 		if ids[l.id] {
 			return fmt.Errorf("sample id %d appears twice within one run (%d instances)\n%s", l.id, c.Instances, data)
 		}
@@ -294,7 +358,7 @@ func checkHTTP(c HTTPCase, o *vf.Obs) error {
 	}
 	for k, n := range got {
 		if _, ok := want[k]; !ok {
-			diffs = append(diffs, fmt.Sprintf("unexpected %d x {tag %q, proto %d, net==0 %v}", n, k.tag, k.proto, k.netOK))
+			diffs = append(diffs, fmt.Sprintf("unexpected %d x {tag %q, proto %d, net==0 %v} %s", n, k.tag, k.proto, k.netOK, strings.Join(gotNet[k], " ")))
 		}
 	}
 	if len(diffs) > 0 {
@@ -303,6 +367,11 @@ func checkHTTP(c HTTPCase, o *vf.Obs) error {
 	}
 	nonOK, fails := false, false
 	for _, e := range c.Entries {
+		if e.NoPath != "" {
+			o.Class("uri_without_path", "uri_without_path_"+e.NoPath)
+			o.ClassIf(c.AutoTag && e.Tag == "", "auto_tag_of_uri_without_path_untagged")
+			o.ClassIf(!c.AutoTag && e.Tag == "", "uri_without_path_untagged_auto_tag_off")
+		}
 		if e.Status >= 300 {
 			nonOK = true
 			o.Class(fmt.Sprintf("status_%dxx", e.Status/100))
